@@ -1,6 +1,6 @@
 use super::{Vm, VmFileId};
 use crate::{
-  cache::InlineCache,
+  cache::{CacheIdEmitter, InlineCache},
   compiler::{Compiler, Parser, Resolver},
   source::Source,
   FeResult,
@@ -53,9 +53,17 @@ impl Vm {
     )
     .resolve(&mut ast)?;
 
+    // The repl compiles each entry into the same module. The code of earlier
+    // entries is still live so continue after the cache ids it was given
+    let cache_id_emitter = match self.inline_cache.get(module.id()) {
+      Some(cache) => CacheIdEmitter::new(cache.property_slots(), cache.invoke_slots()),
+      None => CacheIdEmitter::default(),
+    };
+
     let gc = self.gc.replace(Allocator::default());
     let alloc = Bump::new();
-    let compiler = Compiler::new(module, &alloc, &line_offsets, file_id, repl, self, gc);
+    let compiler = Compiler::new(module, &alloc, &line_offsets, file_id, repl, self, gc)
+      .with_cache_id_emitter(cache_id_emitter);
 
     #[cfg(feature = "debug")]
     let compiler = compiler.with_io(self.io.clone());
@@ -64,15 +72,15 @@ impl Vm {
     self.gc.replace(gc);
 
     result.map(|fun| {
-      let cache = InlineCache::new(
-        cache_id_emitter.property_count(),
-        cache_id_emitter.invoke_count(),
-      );
+      let property_slots = cache_id_emitter.property_count();
+      let invoke_slots = cache_id_emitter.invoke_count();
 
       if module.id() < self.inline_cache.len() {
-        self.inline_cache[module.id()] = cache;
+        self.inline_cache[module.id()].grow(property_slots, invoke_slots);
       } else {
-        self.inline_cache.push(cache);
+        self
+          .inline_cache
+          .push(InlineCache::new(property_slots, invoke_slots));
       }
       self.manage_obj(fun)
     })
